@@ -90,6 +90,20 @@ class TArr:
     dtype = property(lambda s: s.a.dtype)
     ndim = property(lambda s: s.a.ndim)
 
+    itemsize = property(lambda s: s.a.itemsize)
+    nbytes = property(lambda s: s.a.nbytes)
+    strides = property(lambda s: s.a.strides)
+    flags = property(lambda s: s.a.flags)
+
+    def __getattr__(self, k):
+        # any other ndarray attribute / method (sum, copy, astype, ...): counts as a read of the whole array
+        if k.startswith("__"):
+            raise AttributeError(k)
+        a = self.__dict__["a"]
+        v = getattr(a, k)
+        self.tr.rec(self.n, range(len(a)), 0)
+        return v
+
     def __len__(self):
         return len(self.a)
 
@@ -224,6 +238,15 @@ def outline(disp, sim, tr):
         def zeros(s, *x, **y):
             return TArr(np.zeros(*x, **y), "alloc", tr)
 
+    # tuning knobs: module-level ALL-CAPS integer thresholds (block sizes at which another code path takes
+    # over) are shrunk for the run when the schedule says so, so that small blocks reach the large-block paths
+    sim.knobs_changed = []
+    knob = sim.sch.get("knobs")
+    if knob:
+        for k, v in list(ns.items()):
+            if k.isupper() and type(v) is int and v >= 256:
+                ns[k] = int(knob)
+                sim.knobs_changed.append(k)
     ns["np"] = NP()
     ns["__SIM__"] = sim
     code = compile(tree, f"<outlined {fn.__name__}>", "exec")
